@@ -85,6 +85,7 @@ class Check:
         self.obls = []          # every obligation with its outcome
         self.violations = []    # (key, text, replay path)
         self.inconclusive = []
+        self.pkgwrites = []
         self.notes = []
         self.functions = set()
         self.stubs = set()
@@ -101,6 +102,27 @@ class Check:
         self.symx_s = 0.0
 
     # ---- bookkeeping of what was encoded ----
+    def pkgstate(self):
+        """Every verdict about a single call from the initial package state extends to call histories only if no call changes
+        package-level state: recorded for every encoded path (the per-property handling of such a finding comes first)."""
+        if getattr(self, '_pkgstate_done', False) or not self.obls:
+            return
+        self._pkgstate_done = True
+        if any(o['id'].endswith('.pkgstate') for o in self.obls):
+            return
+        ok = not self.pkgwrites
+        self.ground(self.pid + '.pkgstate', 'no encoded path of any function executed for this check writes package-level state (%d runs)' % len(self.extra.get('_runs', [])), ok, str(self.pkgwrites[:3]))
+        if ok or self.violations or self.inconclusive or self.pid in ('C12', 'C17'):
+            return
+        from props import fallback
+        cases = [{'kind': 'hostile-prelude'}, {'kind': 'sanity'}] + fallback.cases_for(self.pid, self.seed)
+        path = self.save_replay({'property': self.pid, 'cases': cases, 'reason': 'package-level state is written: %s' % (self.pkgwrites[:3],)})
+        ok2, out = go_test(path, race=(self.pid == 'C16'), timeout=900)
+        if not ok2 and 'MISMATCH' in out:
+            self.violation('pkgstate', 'a call changes package-level state (%s) and later calls go wrong: %s' % (self.pkgwrites[0][2:], [l.strip() for l in out.splitlines() if 'MISMATCH' in l][:1]), path)
+        else:
+            self.inconclusive.append('package-level state is written (%s) but the hostile-caller battery passes' % (self.pkgwrites[0][2:],))
+
     def absorb(self, runs):
         for r in runs:
             if r.error:
@@ -115,6 +137,9 @@ class Check:
             for p in r.paths:
                 if p['end'] == 'error':
                     raise EngineError('symx run %s path %d: %s' % (r.id, p['id'], p.get('err')))
+                for w in p.get('writes', []):
+                    if w.get('tag') == 'Global':
+                        self.pkgwrites.append((r.id, p['id'], w.get('label'), w.get('at')))
         return runs
 
     # ---- obligations ----
@@ -191,6 +216,7 @@ class Check:
 
     # ---- finish ----
     def finish(self):
+        self.pkgstate()
         known = load_known()
         known_keys = {(k['property'], k['key']): k for k in known if k.get('kind') == 'known'}
         unlisted = []
